@@ -44,7 +44,9 @@ class Proc:
 class Sim:
     MAX_DELTAS = 2000
 
-    def __init__(self, design, top=None, check_static=True):
+    def __init__(self, design, top=None, check_static=True, inputs=None):
+        """inputs: initial values of top-level input ports (like initialised test-bench signals);
+        ports not listed start as 'U' / leftmost value."""
         if isinstance(design, str):
             design = analyse(design)
         self.design = design
@@ -68,6 +70,9 @@ class Sim:
         self.top = self._elab(self.top_ent, top, {})
         self.ports = {p.name: self.top.s[p.idx] for p in self.top_ent.ports}
         self.port_objs = {p.name: p for p in self.top_ent.ports}
+        for name, val in (inputs or {}).items():
+            sg = self.ports[name.lower()]
+            sg.cur = sg.last = sg.drv = self._encode(sg.ty, val)
         # initialisation: every process runs once
         for p in self.procs:
             p.fn(p.ctx)
